@@ -20,7 +20,8 @@ the tree, canonical path `P`), the `…_partial` theorems for `P` = a plain key 
 leading `/`, `C06_star_spelled` (any spelling of `P`), and chained selections `C06_chained`
 (= `C06_chained_stmt`: the nested list of per-parent selections).  For EVERY spelling of `P` (prefix none / `/` /
 `//`, `][` or `]/[`, `a[i]` or `a/[i]`, an index as `i`, `-k`, `last()`, `last()-k`, `i+j`): `C06_pred_spelled`,
-`C06_chained_spelled` (token level) and `C06_pred_spellings_string`, `C06_chained_spellings_string` (string level).
+`C06_chained_spelled` (token level) and `C06_star_spellings_string`, `C06_pred_spellings_string`,
+`C06_chained_spellings_string` (string level).
 `first` on a chained selection: `C06_chained_first`, `C06_chained_first_cases`.  An inner `items` that is ONE dict
 record instead of a list of records: `C06_chained_hidden`, `C06_chained_hidden_flat`.  No statement is left open.
 -/
@@ -640,6 +641,22 @@ theorem C06_pred_spelled (t : Val) (rl : Bool) (toksP : List Str) (p : Pos) (lc 
   simp only [selectWhere_eq] at this
   exact this
 
+/-- **C06 (fan-out, any spelling, string level).**  For any spelling of a path that plain Python indexing follows
+from the root to the list of dict records `rs`, `P[*]/f` and the shorthand `P/f` return `[r[f] for r in rs if f in r]`
+through `get`, item access and `first`; the tree is unchanged. -/
+theorem C06_star_spellings_string (cls : Cls) (kvs : List (Str × Val)) (lead : Lead) (steps : List StepSp) (f : Str) (lc : Cls)
+    (rs : List Val) (d : Val) (hp : PlainSteps steps) (hne : steps ≠ [])
+    (hget : stepsGet (.dict cls kvs) steps = some (.list lc rs)) (hf : PlainKey f) (hrs : ∀ r ∈ rs, isDict r = true)
+    (fuel : Nat) (hfuel : fuel ≥ 2 * steps.length + rs.length + 5) :
+    ∀ xp ∈ [renderSp lead steps ++ bracket ['*'] ++ slash ++ f, renderSp lead steps ++ slash ++ f],
+      XPath.get fuel (.dict cls kvs) xp d = (.dict cls kvs, .ok (selected (selectF f rs) d)) ∧
+      getItem fuel (.dict cls kvs) xp = (.dict cls kvs, selectedItem (selectF f rs)) ∧
+      first fuel (.dict cls kvs) xp d = (.dict cls kvs, .ok (firstOf (selectF f rs) d)) := by
+  intro xp hxp
+  have := sel3_star_string cls kvs lead steps f lc rs d hp hne hget hf hrs fuel hfuel xp hxp
+  simp only [selectF_eq] at this
+  exact this
+
 /-- **C06 (predicates, any spelling, string level).**  `steps` is any spelling of a path that plain Python indexing
 follows from the root to the list of dict records `rs` (`stepsGet`); `renderSp lead steps` its text with prefix none,
 `/` or `//`.  Then `P[k op v]/f` and `P/k[text() op v]/../f` return `f` of exactly the records whose `k` passes the
@@ -1036,6 +1053,13 @@ example : ∀ xp ∈ [renderSp .rel deepSteps ++ bracket (['k'] ++ ['='] ++ ['\'
     plainLit_1 (by decide) (by decide) 40 (by decide) xp hxp).1
   rw [show selectWhere ['k'] ['f'] (condTest ['=', '='] (.str ['1'])) recsList = [.str ['x'], .str ['y']] by decide] at this
   exact this
+
+/-- `C06_star_spellings_string`: `a/[0+1][*]/f` and `a/[0+1]/f` -/
+example : ∀ xp ∈ [renderSp .rel deepSteps ++ bracket ['*'] ++ slash ++ ['f'], renderSp .rel deepSteps ++ slash ++ ['f']],
+    XPath.get 40 deep xp .none = (deep, .ok (.list .n0 [.str ['x'], .str ['y']])) := by
+  intro xp hxp
+  exact ((C06_star_spellings_string .n0 [(['a'], .list .plain [.str ['p'], .list .plain recsList])] .rel deepSteps ['f'] .plain
+    recsList .none ⟨plainKey_a, trivial⟩ (by simp [deepSteps]) (by decide) plainKey_f (by decide) 40 (by decide)) xp hxp).1
 
 /-- the same through the model, spellings `a[-1]`, `/a/[last()]`, `//a[1+0]`, text form included -/
 example : (XPath.get 60 deep ['a', '[', '-', '1', ']', '[', 'k', '=', '1', ']', '/', 'f'] .none).2
